@@ -200,3 +200,179 @@ def guards_of(node, f):
             break
         child = p
     return out
+
+
+def local_reach(model, f, limit=4):
+    """Functions reachable from f through calls of plain module-level names and self.<method> (the class of f),
+    to a small depth: the helpers a refactoring may have extracted."""
+    seen = {f}
+    frontier = [f]
+    for _ in range(limit):
+        nxt = []
+        for g in frontier:
+            cls = getattr(g, '_cls', None)
+            for c in walk_no_nested(g):
+                if not isinstance(c, ast.Call):
+                    continue
+                t = None
+                if isinstance(c.func, ast.Name):
+                    r = g._mod.resolve_name(c.func.id)
+                    t = r if isinstance(r, ast.FunctionDef) else None
+                elif isinstance(c.func, ast.Attribute) and isinstance(c.func.value, ast.Name) and c.func.value.id == 'self' and cls is not None:
+                    r = cls.find_method(c.func.attr)
+                    t = r[1] if r else None
+                elif isinstance(c.func, ast.Attribute):
+                    r = g._mod.resolve(c.func)
+                    t = r if isinstance(r, ast.FunctionDef) else None
+                if t is not None and t not in seen:
+                    seen.add(t)
+                    nxt.append(t)
+        frontier = nxt
+    return seen
+
+
+def inline_helpers(f, rounds=3, exclude=()):
+    """A copy of function f in which calls of single-exit helper functions of the same module are expanded in place
+    (`x = helper(a)` / `return helper(a)` / `helper(a)`): parameters become prefixed locals, the helper's final
+    `return e` becomes the assignment / return.  Only one-expression helpers and helpers with a single call site in the module
+    are expanded; helpers with early returns, *args or nested definitions are left as calls.
+    The copy carries f's module, class and name, and the line numbers of f's definition.  Returns f itself when nothing
+    was expanded."""
+    mod = getattr(f, '_mod', None)
+    if mod is None:
+        return f
+    counter = [0]
+    changed = [False]
+    uses = {}
+
+    def helper_of(call):
+        if not isinstance(call, ast.Call) or not isinstance(call.func, ast.Name) or call.func.id in exclude:
+            return None
+        g = mod.resolve_name(call.func.id)
+        if not isinstance(g, ast.FunctionDef) or g is f or getattr(g, '_mod', None) is not mod or g.decorator_list:
+            return None
+        a = g.args
+        if a.vararg or a.kwarg or a.kwonlyargs or a.posonlyargs:
+            return None
+        if any(isinstance(x, ast.Starred) for x in call.args) or any(k.arg is None for k in call.keywords):
+            return None
+        body = [s for s in g.body if not (isinstance(s, ast.Expr) and isinstance(s.value, ast.Constant))]
+        if not body:
+            return None
+        for n in ast.walk(g):
+            if isinstance(n, (ast.Yield, ast.YieldFrom, ast.Global, ast.Nonlocal, ast.Lambda)) or (isinstance(n, (ast.FunctionDef, ast.ClassDef)) and n is not g):
+                return None
+        rets = [n for s in body for n in ast.walk(s) if isinstance(n, ast.Return)]
+        if len(rets) > 1 or (rets and rets[0] is not body[-1]):
+            return None
+        params = [x.arg for x in a.args]
+        if len(call.args) > len(params):
+            return None
+        # only what a refactoring extracts: a one-expression helper, or a helper with a single call site in its module
+        one_expr = len(body) == 1 and isinstance(body[0], ast.Return)
+        if not one_expr:
+            if g.name not in uses:
+                uses[g.name] = sum(1 for n in ast.walk(mod.tree) if isinstance(n, ast.Call) and isinstance(n.func, ast.Name) and n.func.id == g.name)
+            if uses[g.name] != 1:
+                return None
+        return g, body, params
+
+    def expand(call, sink):
+        """statements computing helper(call) and handing the result to sink(expr) -> stmt, or None"""
+        h = helper_of(call)
+        if h is None:
+            return None
+        g, body, params = h
+        counter[0] += 1
+        pre = '_%s%d_' % (g.name.strip('_'), counter[0])
+        local = set(params)
+        for s in body:
+            for n in ast.walk(s):
+                if isinstance(n, ast.Name) and isinstance(n.ctx, (ast.Store, ast.Del)):
+                    local.add(n.id)
+        bound = {}
+        for pn, a_ in zip(params, call.args):
+            bound[pn] = a_
+        for k in call.keywords:
+            if k.arg not in params or k.arg in bound:
+                return None
+            bound[k.arg] = k.value
+        defaults = dict(zip(params[len(params) - len(g.args.defaults):], g.args.defaults))
+        if len(body) == 1 and isinstance(body[0], ast.Return) and body[0].value is not None \
+                and all(isinstance(bound.get(pn, defaults.get(pn)), (ast.Name, ast.Constant)) for pn in params):
+            # a one-expression helper with plain arguments: the expression itself, arguments substituted
+            sub = {pn: bound.get(pn, defaults.get(pn)) for pn in params}
+
+            class Sub(ast.NodeTransformer):
+                def visit_Name(s, n):
+                    if n.id in sub and isinstance(n.ctx, ast.Load):
+                        return ast.copy_location(ast.parse(ast.unparse(sub[n.id]), mode='eval').body, n)
+                    return n
+            e = Sub().visit(ast.parse(ast.unparse(body[0].value), mode='eval').body)
+            changed[0] = True
+            return [sink(e)]
+        out = []
+        for pn in params:
+            v = bound.get(pn, defaults.get(pn))
+            if v is None:
+                return None
+            out.append(ast.Assign(targets=[ast.Name(id=pre + pn, ctx=ast.Store())], value=v, lineno=call.lineno, col_offset=0))
+
+        class Ren(ast.NodeTransformer):
+            def visit_Name(s, n):
+                if n.id in local:
+                    return ast.copy_location(ast.Name(id=pre + n.id, ctx=n.ctx), n)
+                return n
+        copied = ast.parse(ast.unparse(ast.Module(body=body, type_ignores=[]))).body
+        copied = [Ren().visit(s) for s in copied]
+        if isinstance(copied[-1], ast.Return):
+            last = copied.pop()
+            out.extend(copied)
+            out.append(sink(last.value if last.value is not None else ast.Constant(None)))
+        else:
+            out.extend(copied)
+            out.append(sink(ast.Constant(None)))
+        changed[0] = True
+        return out
+
+    def block(stmts):
+        res = []
+        for s in stmts:
+            rep = None
+            if isinstance(s, ast.Assign) and len(s.targets) == 1 and isinstance(s.value, ast.Call):
+                rep = expand(s.value, lambda e, s=s: ast.Assign(targets=s.targets, value=e, lineno=s.lineno, col_offset=0))
+            elif isinstance(s, ast.Return) and isinstance(s.value, ast.Call):
+                rep = expand(s.value, lambda e, s=s: ast.Return(value=e, lineno=s.lineno, col_offset=0))
+            elif isinstance(s, ast.Expr) and isinstance(s.value, ast.Call):
+                rep = expand(s.value, lambda e, s=s: ast.Expr(value=e, lineno=s.lineno, col_offset=0))
+            if rep is not None:
+                res.extend(rep)
+                continue
+            for fld in ('body', 'orelse', 'finalbody'):
+                if isinstance(getattr(s, fld, None), list) and getattr(s, fld) and isinstance(getattr(s, fld)[0], ast.stmt):
+                    setattr(s, fld, block(getattr(s, fld)))
+            if isinstance(s, ast.Try):
+                for h_ in s.handlers:
+                    h_.body = block(h_.body)
+            res.append(s)
+        return res
+
+    cur = ast.parse(ast.unparse(f)).body[0]
+    for _ in range(rounds):
+        changed[0] = False
+        cur.body = block(cur.body)
+        if not changed[0]:
+            break
+        ast.fix_missing_locations(cur)
+        cur = ast.parse(ast.unparse(cur)).body[0]
+    if counter[0] == 0:
+        return f
+    ast.increment_lineno(cur, f.lineno - 1)
+    for par in ast.walk(cur):
+        for ch in ast.iter_child_nodes(par):
+            ch._parent = par
+    cur._parent = getattr(f, '_parent', None)
+    cur._mod = mod
+    cur._cls = getattr(f, '_cls', None)
+    cur._inlined_from = f
+    return cur
